@@ -325,6 +325,7 @@ fn main() {
     let al = {
         let mut al = Alphabet::new(&[("name", &NAME_VALS), ("description", &DESC_VALS), ("gidnumber", &GID_VALS), ("class", &["object", "group"])]);
         al.self_uuid = true;
+        al.empty_groups = true;
         al
     };
     let n = cx.tier.pick(150_000, 2_000_000);
